@@ -193,6 +193,17 @@ func checkC16(res *world.Result, s *simrt.Sim, sc *Scenario, logs []*PlugLog, ho
 			failedNames = append(failedNames, ps.Name)
 		}
 	}
+	// reasons of the host's own (bad option, module that does not compile or generate)
+	hostWhy := hostFaults(sc)
+	if len(hostWhy) > 0 {
+		res.Count("c16.host-side-fault", 1)
+		for _, l := range logs {
+			if l.Started {
+				res.Count("c16.host-side-fault-with-started-plugin", 1)
+				break
+			}
+		}
+	}
 
 	for _, l := range logs {
 		ps := l.Script
@@ -266,7 +277,11 @@ func checkC16(res *world.Result, s *simrt.Sim, sc *Scenario, logs []*PlugLog, ho
 	_ = hostClosed
 
 	// 4. Exit status.
-	if host.Returned {
+	if host.Returned && len(hostWhy) > 0 {
+		if host.Err == nil {
+			res.Failf("C16/exit-status-missed-failure", "the host reported success although %s", strings.Join(hostWhy, "; "))
+		}
+	} else if host.Returned {
 		if expectFail && host.Err == nil {
 			res.Failf("C16/exit-status-missed-failure", "plugins %v failed but the host reported success", failedNames)
 		}
